@@ -784,3 +784,6 @@ func LibraryGoroutines() []string {
 	}
 	return out
 }
+
+// StatsString describes the current quiescence snapshot (diagnostics).
+func (h *H) StatsString() string { return h.snapshot().String() }
